@@ -383,16 +383,13 @@ ASTNode *ExpressionParser::parseBitwiseAnd() {
  * - <, >, <=, >= (大小比較)
  */
 ASTNode *ExpressionParser::parseComparison() {
-    ASTNode *left = parseShift();
+    // 等価比較（==, !=）は大小比較（<, <=, >, >=）より優先順位が低い
+    ASTNode *left = parseRelational();
 
     while (parser_->check(TokenType::TOK_EQ) ||
-           parser_->check(TokenType::TOK_NE) ||
-           parser_->check(TokenType::TOK_LT) ||
-           parser_->check(TokenType::TOK_LE) ||
-           parser_->check(TokenType::TOK_GT) ||
-           parser_->check(TokenType::TOK_GE)) {
+           parser_->check(TokenType::TOK_NE)) {
         Token op = parser_->advance();
-        ASTNode *right = parseShift();
+        ASTNode *right = parseRelational();
 
         ASTNode *binary = new ASTNode(ASTNodeType::AST_BINARY_OP);
         binary->op = op.value;
@@ -403,6 +400,34 @@ ASTNode *ExpressionParser::parseComparison() {
                          static_cast<void *>(right));
             std::fflush(stderr);
         }
+        binary->left = std::unique_ptr<ASTNode>(left);
+        binary->right = std::unique_ptr<ASTNode>(right);
+
+        left = binary;
+    }
+
+    return left;
+}
+
+/**
+ * @brief 大小比較演算子を解析
+ * @return 解析されたAST二項演算ノード
+ *
+ * サポートする演算子:
+ * - <, >, <=, >= (大小比較)
+ */
+ASTNode *ExpressionParser::parseRelational() {
+    ASTNode *left = parseShift();
+
+    while (parser_->check(TokenType::TOK_LT) ||
+           parser_->check(TokenType::TOK_LE) ||
+           parser_->check(TokenType::TOK_GT) ||
+           parser_->check(TokenType::TOK_GE)) {
+        Token op = parser_->advance();
+        ASTNode *right = parseShift();
+
+        ASTNode *binary = new ASTNode(ASTNodeType::AST_BINARY_OP);
+        binary->op = op.value;
         binary->left = std::unique_ptr<ASTNode>(left);
         binary->right = std::unique_ptr<ASTNode>(right);
 
